@@ -495,13 +495,44 @@ func arithObligations(r *Run, rule string, fnRefs ...string) {
 		if fn == nil {
 			continue
 		}
-		ff := r.P.Facts(fn)
-		sites := ff.ArithSites()
-		r.Units["arithmetic obligations"] += len(sites)
-		for _, s := range sites {
-			r.Check(rule, ref+": "+s.Kind+" "+trunc(s.Expr, 110), r.P.Pos(s.In.Pos()), s.OK, s.Why)
+		// the function and the single-use helpers it calls (code moved out by an extract-function refactor)
+		for _, f := range append([]*ssa.Function{fn}, r.P.singleUseCallees(fn, 2)...) {
+			ff := r.P.Facts(f)
+			sites := ff.ArithSites()
+			r.Units["arithmetic obligations"] += len(sites)
+			name := ref
+			if f != fn {
+				name = ref + " (helper " + FnName(f) + ")"
+			}
+			for _, s := range sites {
+				r.Check(rule, name+": "+s.Kind+" "+trunc(s.Expr, 110), r.P.Pos(s.In.Pos()), s.OK, s.Why)
+			}
 		}
 	}
+}
+
+// singleUseCallees: single-use helpers statically called from fn, transitively to the given depth.
+func (p *Program) singleUseCallees(fn *ssa.Function, depth int) []*ssa.Function {
+	var out []*ssa.Function
+	seen := map[*ssa.Function]bool{fn: true}
+	var walk func(f *ssa.Function, d int)
+	walk = func(f *ssa.Function, d int) {
+		for _, b := range f.Blocks {
+			for _, in := range b.Instrs {
+				if ci, ok := in.(ssa.CallInstruction); ok {
+					if h := ci.Common().StaticCallee(); h != nil && !seen[h] && p.singleUse(h) {
+						seen[h] = true
+						out = append(out, h)
+						if d < depth {
+							walk(h, d+1)
+						}
+					}
+				}
+			}
+		}
+	}
+	walk(fn, 1)
+	return out
 }
 
 // txErrorDiscipline (C04-R4 / C08-R3): inside the visor packages no error returned
